@@ -31,7 +31,10 @@ RULE = ("Two feature files on disk (features/f0.feature, features/f1.feature in 
         "{show_skipped, --no-skipped} in both runs with <= 1 non-pass slot of every kind and pairs of failing slots, so that "
         "unsuccessful scenarios fall among the selected and the de-selected ones (ground truth everywhere: the final status of the scenario objects handed to "
         "the before_scenario hook while they execute, keyed by file:line and cross-checked with the kinds and with the model "
-        "walked afterwards; never formatter events). Run 1 = real Configuration "
+        "walked afterwards; never formatter events); plus, on 3 pairs, the rerun entries fed back next to a line-less "
+        "(whole-file) location of a third feature - on the command line before '@rerun.txt', inside a list file whose "
+        "first entry is the whole file, and after '@rerun.txt' - where run 2 must execute the listed scenarios plus every "
+        "scenario of the whole-file feature and skip the rest. Run 1 = real Configuration "
         "(-f rerun -o rerun.txt features), collect_feature_locations + parse_features on the files, formatters from "
         "make_formatters, ModelRunner with a fresh StepRegistry. Oracle: rerun.txt lists exactly file:line (line known "
         "from the renderer) of the scenarios whose final status is failed or error-class, in run order; none -> no file "
@@ -249,6 +252,14 @@ def same_titles(text):
     return "\n".join(_TITLE.sub(lambda mo: mo.group(1) + " same", line) for line in text.split("\n"))
 
 
+# how the rerun file reaches run 2 (the `feed` element of a case)
+FEEDS = {0: "@rerun.txt", 1: "file:line arguments", 2: "whole-file location of a third feature, then @rerun.txt",
+         3: "list file: whole-file entry of a third feature, then the rerun entries", 4: "@rerun.txt, then a whole-file location"}
+FEED_KEY = {2: "wholefile-before", 3: "listfile-wholefile-first", 4: "wholefile-after"}
+XDIR, XFILE, LISTFILE = "extra", "extra/f2.feature", "feeds.txt"
+XFEATURE = _F((_S(), _O(ROWS1)))          # the third feature (never part of run 1): all of it runs when named whole
+
+
 def fname(fi):
     return "%s/f%d.feature" % (FDIR, fi)
 
@@ -439,7 +450,8 @@ def elem_class(path, prog):
 def rerun_case(case):
     """case = (shape0, shape1, kinds, stale[, cfault[, dup[, feed]]])   cfault = None | (container path, hook name);
     dup = 1: all scenario / outline / rule / examples titles identical; feed = 1: the entries of the rerun file are given
-    to run 2 as file:line command-line arguments instead of '@rerun.txt'; opts = extra command-line switches of both runs
+    to run 2 as file:line command-line arguments instead of '@rerun.txt', feed = 2/3/4: see FEEDS (a whole-file location of a third
+    feature, extra/f2.feature, before / in a list file before / after the rerun entries); opts = extra command-line switches of both runs
     (a subset of --tags=t, --no-skipped; shapes from TAG_SHAPES)"""
     shape0, shape1, kinds, stale = case[:4]
     cfault = case[4] if len(case) > 4 else None
@@ -481,6 +493,19 @@ def rerun_case(case):
                 if p[0] == fi:
                     path2loc[p] = (fname(fi), meta["lines"][p])
                     loc2path[path2loc[p]] = p
+        xpaths, xcalls = [], []
+        if feed >= 2:
+            os.mkdir(XDIR)
+            text, meta = P.render(XFEATURE, 2)
+            with io.open(XFILE, "w", encoding="utf-8") as fh:
+                fh.write(text)
+            loc2cont[(XFILE, meta["lines"][(2,)])] = (2,)
+            for p0, _k, info in P.walk_scenarios((XFEATURE,)):
+                p = (2,) + p0[1:]
+                xpaths.append(p)
+                path2loc[p] = (XFILE, meta["lines"][p])
+                loc2path[path2loc[p]] = p
+                xcalls.extend((p, sid) for sid, _o in info["steps"])
         stale_text = None
         if stale:
             stale_text = (u"# -- RERUN: 1 failing scenarios during last test run.\n# (stale: written before run 1)\n"
@@ -546,7 +571,18 @@ def rerun_case(case):
             for e in entries1:
                 if loc2path[e] not in listed:
                     listed.append(loc2path[e])
-            feed_args = ["%s:%d" % e for e in entries1] if feed else ["@" + RERUN]
+            if feed == 1:
+                feed_args = ["%s:%d" % e for e in entries1]
+            elif feed == 2:
+                feed_args = [XFILE, "@" + RERUN]
+            elif feed == 3:
+                with io.open(LISTFILE, "w", encoding="utf-8") as fh:
+                    fh.write(u"# whole file first, then the rerun entries\n%s\n%s" % (XFILE, text1))
+                feed_args = ["@" + LISTFILE]
+            elif feed == 4:
+                feed_args = ["@" + RERUN, XFILE]
+            else:
+                feed_args = ["@" + RERUN]
             o2 = one_run(m, base + feed_args, loc2path, faults, loc2cont, cfault, feedback=True)
             hist = "run 2 on %s (%s) kinds=%s cfault=%s%s" % (" ".join(feed_args), entries1, list(kinds), cfault,
                                                              " special=%s" % (special,) if special else "")
@@ -586,13 +622,19 @@ def rerun_case(case):
                                    "elem": elem_class(p, prog)},
                                   "%s: %s:%d is not listed but not marked should_skip" % (hist, path2loc[p][0],
                                                                                           path2loc[p][1])))
+                for p in xpaths:
+                    if not sel.get(p, False):
+                        v.append(({"subcheck": "rerun.feedback", "clause": "wholefile-scenario-not-selected"},
+                                  "%s: %s:%d belongs to the feature named without a line but %s"
+                                  % (hist, path2loc[p][0], path2loc[p][1],
+                                     "is marked should_skip" if p in sel else "its feature file is not loaded")))
                 if leaked:
                     v.append(({"subcheck": "rerun.feedback", "clause": "unlisted-selected", "bystander_tag": special[0],
                                "tag_on": special[1]},
                               "%s: scenarios without @setup/@teardown that are not listed are not marked should_skip: %s"
                               % (hist, ["%s:%d" % path2loc[p] for p in leaked])))
                 st2 = o2["status"]
-                wanted = listed + also
+                wanted = listed + also + xpaths
                 # the second run is only judged when the selection was right (otherwise it repeats the same alarm);
                 # the statement does not fix an order for run 2: compared as multisets (each listed scenario once)
                 if len(v) == nv and sorted(o2["before"]) != sorted(wanted):
@@ -603,12 +645,17 @@ def rerun_case(case):
                     v.append(({"subcheck": "rerun.second-run", "clause": clause, "elem": cls},
                               "%s: before_scenario called for %s, listed %s (+ @setup/@teardown: %s)"
                               % (hist, o2["before"], listed, also)))
-                want_calls = [c for c in o1["calls"] if c[0] in wanted]
+                want_calls = [c for c in o1["calls"] if c[0] in wanted] + xcalls
                 if len(v) == nv and sorted(o2["calls"]) != sorted(want_calls):
                     v.append(({"subcheck": "rerun.second-run", "clause": "step-call-log"},
                               "%s: step calls %s, run-1 calls of the listed scenarios %s" % (hist, o2["calls"],
                                                                                             want_calls)))
                 if len(v) == nv:
+                    for p in xpaths:
+                        if st2.get(p) != "passed":
+                            v.append(({"subcheck": "rerun.second-run", "clause": "wholefile-scenario-not-passed",
+                                       "status": str(st2.get(p))},
+                                      "%s: scenario %r of the whole-file feature ended %s" % (hist, p, st2.get(p))))
                     for p in order:
                         if p in wanted:
                             if st2.get(p) != st1[p]:
@@ -637,10 +684,11 @@ def rerun_case(case):
         out = (tuple(sorted(set(st1.values()))), min(n_unsucc, 3), text1 is not None, bool(stale), o2 is not None,
                cfault and (cfault[1], "feature" if len(cfault[0]) == 1 else "rule"), int(bool(dup)),
                special and special + (feed,), opts and ("+".join(o.strip("-").split("=")[0] for o in opts),
-                                                        tuple(sorted(set(tagon.values()), key=str))))
+                                                        tuple(sorted(set(tagon.values()), key=str))), feed)
         # special-tag programs: what happens to the untagged unlisted scenarios is judged by the oracle, but a defect there
         # may depend on set iteration order, so those scenarios stay out of the determinism digest
         keep = set(order) if not special else set(p for p in order if p in exempt or st1.get(p) != "passed")
+        keep |= set(xpaths)
         dg = (text1, sorted(st1.items()), o1["calls"], o1["before"], o1["after"], o1["chooks"], sorted(o1["cstatus"].items()),
               o2 and (sorted(x for x in o2["selected"].items() if x[0] in keep),
                       sorted(x for x in o2["status"].items() if x[0] in keep),
@@ -663,6 +711,11 @@ def rerun_case(case):
         if not plain["v"]:
             sw = "+".join(o.strip("-").split("=")[0] for o in opts)
             res["v"] = [(dict(desc, switches=sw), msg) for desc, msg in res["v"]]
+    if feed >= 2 and res["v"]:
+        # trigger class: the whole-file location next to the rerun entries, if '@rerun.txt' alone is clean
+        plain = rerun_case((shape0, shape1, kinds, stale, cfault, dup, 0, opts))
+        if not plain["v"]:
+            res["v"] = [(dict(desc, feed=FEED_KEY[feed]), msg) for desc, msg in res["v"]]
     return res
 
 
@@ -749,6 +802,26 @@ def switch_cases(tier):
                 yield (s0, s1, kinds, 1, None, 0, 0, opts)
 
 
+FEED_PAIRS = (("SS", "O2"), ("O2", "S+R(S)"), ("R(S,O1)", "O1|1"))
+
+
+def feed_cases(tier):
+    """the rerun entries next to a whole-file location (FEEDS 2, 3, 4): <= 1 non-pass slot of every kind and every pair of
+    failing slots (thorough: every assignment with <= 2 non-pass slots)"""
+    for a, b in FEED_PAIRS:
+        s0, s1 = SHAPES[a], SHAPES[b]
+        n = nslots(s0) + nslots(s1)
+        assigns = list(assignments(n, 1))
+        if tier == "quick":
+            for i, j in itertools.combinations(range(n), 2):
+                assigns.append(tuple("fail" if x in (i, j) else "pass" for x in range(n)))
+        else:
+            assigns.extend(assignments(n, 2))
+        for feed in (2, 3, 4):
+            for kinds in assigns:
+                yield (s0, s1, kinds, 1, None, 0, feed)
+
+
 def run(ctx):
     pairs = QUICK_PAIRS if ctx.quick else THOROUGH_PAIRS
     ctx.bounds = {"feature_files": 2, "shape_pairs": len(pairs), "max_nonpass_scenarios": 2 if ctx.quick else 4,
@@ -764,12 +837,16 @@ def run(ctx):
                                             "slot unsuccessful in turn; fed back as @rerun.txt and as file:line arguments",
                   "switch_combinations": "3 pairs of @t placements (examples block, outline, scenario, rule, feature, "
                                          "examples block in a rule) x {no tags, --tags=t} x {show_skipped, --no-skipped}",
+                  "feed_modes": "@rerun.txt alone (everywhere); file:line arguments (special-tag programs); 3 pairs x "
+                                "{whole-file location of a third feature before @rerun.txt, list file starting with a "
+                                "whole-file entry, whole-file location after @rerun.txt}",
                   "executions": "a case with a rerun file counts 2 (run + re-run), otherwise 1"}
     ctx.sweep(rerun_case, cases(ctx.tier), chunk=16, name="run -> rerun.txt -> run")
     ctx.sweep(rerun_case, special_cases(ctx.tier), chunk=8, name="bystanders tagged @setup/@teardown")
     ctx.sweep(rerun_case, switch_cases(ctx.tier), chunk=16, name="{--tags=t} x {--no-skipped} x @t placements")
+    ctx.sweep(rerun_case, feed_cases(ctx.tier), chunk=16, name="rerun entries next to a whole-file location")
     kinds_seen = set()
-    for (statuses, _n, _f, _s, _second, _cf, _dup, _sp, _sw) in ctx.outcomes:
+    for (statuses, _n, _f, _s, _second, _cf, _dup, _sp, _sw, _feed) in ctx.outcomes:
         kinds_seen |= set(statuses)
     for need in ("passed", "failed", "error", "hook_error", "skipped"):
         ctx.guard(need in kinds_seen, "scenario status %s occurred in run 1" % need)
@@ -789,6 +866,9 @@ def run(ctx):
         ctx.guard(need in sws, "switch combination %s: unsuccessful scenarios listed and fed back" % need)
     ctx.guard(any(o[8] and o[8][0] == "tags+no-skipped" and "examples" in o[8][1] and "skipped" in o[0] and o[4]
                   for o in ctx.outcomes), "--tags=t --no-skipped with rows selected only through an Examples-block tag")
+    for fd in (2, 3, 4):
+        ctx.guard(any(o[9] == fd and o[4] and "passed" in o[0] for o in ctx.outcomes),
+                  "fed back as: %s (with unlisted scenarios in the listed features)" % FEEDS[fd])
     sps = set(o[7] for o in ctx.outcomes if o[7] and o[4])
     for tag in SPECIAL_TAGS:
         for level in ("scenario", "outline", "examples", "scenario@rule"):
